@@ -50,7 +50,7 @@ theorem seen_invariant (h : WF U W) {v : VW} {la : Block} (hr : Reachable U W v 
 
 /-- **C09, verification — core form**, from the invariant alone (so that any route that
 establishes `SeenInv` can use it: `Reachable` below, and the state-sync routes of C22,
-`forward_done_implies_window_covered` / `backfill_done_implies_window_covered_partial`). -/
+`forward_done_implies_window_covered` / `backfill_done_implies_window_covered`). -/
 theorem no_repeat_of_inv (h : WF U W) {v : VW} {la : Block}
     (hinv : SeenInv U v la) (hla : InU U la)
     {idx : Index} (hidx : ∀ i b, idx i = some b → U i = some b)
